@@ -36,6 +36,22 @@ pub fn p384_x_on_curve(x: &[u8]) -> bool {
     is_qr(&rhs, &p)
 }
 
+/// The y-coordinates of the P-384 points with abscissa `x`, smaller first (p = 3 mod 4).
+pub fn p384_ys_of_x(x: &[u8]) -> Option<(BigUint, BigUint)> {
+    let p = p384_p();
+    let xv = BigUint::from_bytes_be(x);
+    if x.len() != 48 || xv >= p {
+        return None;
+    }
+    let rhs = (xv.modpow(&BigUint::from(3u8), &p) + &p * BigUint::from(3u8) - (&xv * BigUint::from(3u8)) % &p + p384_b()) % &p;
+    let y = rhs.modpow(&((&p + BigUint::from(1u8)) >> 2), &p);
+    if (&y * &y) % &p != rhs {
+        return None;
+    }
+    let other = (&p - &y) % &p;
+    Some(if y <= other { (y, other) } else { (other, y) })
+}
+
 /// Is (x, y) a point of P-384?
 pub fn p384_xy_on_curve(x: &[u8], y: &[u8]) -> bool {
     let p = p384_p();
